@@ -318,8 +318,16 @@ Attribution(r) ==
            /\ ClimbsAboveRoot(OldSegs(r.self) \o NewSegs(IF r.act = "truediv" THEN <<r.args.v>> ELSE r.args.vs))
            /\ Agreement(r) = "agree"
         THEN {"Dev_MakeChildClimbEatsRoot"} ELSE {})
-  \cup (IF (Has_(r, "self") /\ EmptyHostObs(r.self)) \/ (OutOk(r) /\ EmptyHostObs(r.out.ok)) THEN {"Dev_EmptyHost"} ELSE {})
+  \* (for C09 / C03 additionally: only the host-derived accessors may differ)
+  \cup (IF ((Has_(r, "self") /\ EmptyHostObs(r.self)) \/ (OutOk(r) /\ EmptyHostObs(r.out.ok)))
+           /\ (Prop = "C09" /\ OutOk(r) /\ Has_(r, "twin") =>
+                 UNION {C09_TwinDiff(r.out.ok, r.twin[k]) : k \in DOMAIN r.twin}
+                   \subseteq {"authority", "host", "host_port_subcomponent", "host_subcomponent", "human_repr", "raw_host"})
+           /\ (Prop = "C03" /\ OutOk(r) /\ Has_(r, "reparse") => C03_DiffFields(r.out.ok, r.reparse) \subseteq {"host", "raw_host", "reparse-raises"})
+        THEN {"Dev_EmptyHost"} ELSE {})
+  \* Dev_QueryDecodeReplaces: trigger (an ill-formed escape run in the raw query) AND observed = Level I's replacement decoding
   \cup (IF OutOk(r) /\ "raw_query_string" \in DOMAIN r.out.ok /\ Ok(r.out.ok.raw_query_string) /\ HasBadEscapeRun(V(r.out.ok.raw_query_string), 1)
+           /\ "query" \in DOMAIN r.out.ok /\ Ok(r.out.ok.query) /\ V(r.out.ok.query) = QueryPairsReplace(V(r.out.ok.raw_query_string))
         THEN {"Dev_QueryDecodeReplaces"} ELSE {})
   \* (trigger AND the observed result is what Level I -- which contains the deviation -- predicts)
   \cup (IF Trig_BracketedNonIPv6(r) /\ Agreement(r) = "agree" THEN {"Dev_BracketedNonIPv6LosesBrackets"} ELSE {})
